@@ -148,9 +148,62 @@ func (in *Interp) info(fn *ssa.Function) *fnInfo {
 	return fi
 }
 
+// dynInit reports whether the package initialiser of g's package stores into g.
+var dynInitCache sync.Map // *ssa.Package -> map[*ssa.Global]bool
+
+func dynInit(g *ssa.Global) bool {
+	if g.Pkg == nil {
+		return false
+	}
+	if m, ok := dynInitCache.Load(g.Pkg); ok {
+		return m.(map[*ssa.Global]bool)[g]
+	}
+	m := map[*ssa.Global]bool{}
+	var root func(v ssa.Value) *ssa.Global
+	root = func(v ssa.Value) *ssa.Global {
+		switch v := v.(type) {
+		case *ssa.Global:
+			return v
+		case *ssa.FieldAddr:
+			return root(v.X)
+		case *ssa.IndexAddr:
+			return root(v.X)
+		}
+		return nil
+	}
+	seen := map[*ssa.Function]bool{}
+	var scan func(f *ssa.Function)
+	scan = func(f *ssa.Function) {
+		if f == nil || seen[f] || f.Pkg != g.Pkg {
+			return
+		}
+		seen[f] = true
+		for _, b := range f.Blocks {
+			for _, ins := range b.Instrs {
+				switch ins := ins.(type) {
+				case *ssa.Store:
+					if gl := root(ins.Addr); gl != nil {
+						m[gl] = true
+					}
+				case *ssa.Call:
+					if cf, ok := ins.Call.Value.(*ssa.Function); ok && strings.HasPrefix(cf.Name(), "init") {
+						scan(cf)
+					}
+				}
+			}
+		}
+	}
+	scan(g.Pkg.Func("init"))
+	dynInitCache.Store(g.Pkg, m)
+	return m[g]
+}
+
 func (in *Interp) global(g *ssa.Global) *Value {
 	if c, ok := in.globals[g]; ok {
 		return c
+	}
+	if g.Pkg != nil && !in.initPkgs[g.Pkg.Pkg.Path()] && dynInit(g) {
+		in.unsupported("use of package-level variable " + g.Pkg.Pkg.Path() + "." + g.Name() + " whose package initialiser is not executed")
 	}
 	c := new(Value)
 	*c = zero(g.Type().(*types.Pointer).Elem())
